@@ -47,8 +47,21 @@ class FakeS3:
         data = self.objects[key]
 
         class _Body:
-            def read(self_inner):
-                return data
+            # the parts of botocore's StreamingBody a reader of an object may use
+            def read(self_inner, amt=None):
+                return data if amt is None else data[:amt]
+
+            def iter_lines(self_inner, chunk_size=1024, keepends=False):
+                return iter(data.splitlines(keepends))
+
+            def iter_chunks(self_inner, chunk_size=1024):
+                return (data[i:i + chunk_size] for i in range(0, len(data), chunk_size))
+
+            def __iter__(self_inner):
+                return self_inner.iter_chunks()
+
+            def close(self_inner):
+                pass
 
         class _Obj:
             def get(self_inner):
@@ -84,7 +97,7 @@ def _files_dir():
     return _FILES_DIR[1]
 
 
-def impl_collection(texts, allow, strict, via='strings', keys=None, page_size=2):
+def impl_collection(texts, allow, strict, via='strings', keys=None, page_size=2, listing='sorted'):
     """Build a MosCollection from `texts` (in the given order) and merge it.
     -> {'err', 'reader_ids', 'ro_msg_id', 'run': {'ro','warns','err'} | None, 'text'}"""
     from . import impl
@@ -116,10 +129,15 @@ def impl_collection(texts, allow, strict, via='strings', keys=None, page_size=2)
                 mc = MosCollection.from_files(paths, allow_incomplete=allow)
             elif via == 's3':
                 # key names are opaque: '+', '%xx' sequences, blanks and non-ASCII letters are part of the name
-                keys = keys or [f'prefix/k{i:03d}{["", "+a", "%25", "%2B b", " c", "é"][i % 6]}.mos.xml' for i in range(len(texts))]
+                keys = keys or [f'prefix/k{i:03d}{["", "+a", "%25", "%2B b", " c", "é", ".rev1.2", "-T17.00.00"][i % 8]}.mos.xml' for i in range(len(texts))]
                 objs = {k: doc_bytes(t) for k, t in zip(keys, texts)}
                 objs['prefix/ignored.txt'] = b'not a mos file'
-                install_fake_s3(FakeS3(objs, page_size=page_size))
+                pages = None
+                if listing == 'supplied':
+                    # the listing in the order the keys were supplied (a store is not obliged to list in key order)
+                    ks_ = [k for k in keys] + ['prefix/ignored.txt']
+                    pages = [ks_[i:i + page_size] for i in range(0, len(ks_), page_size)]
+                install_fake_s3(FakeS3(objs, page_size=page_size, pages=pages))
                 mc = MosCollection.from_s3(bucket_name='bucket', prefix='prefix/', allow_incomplete=allow)
             else:
                 raise ValueError(via)
@@ -140,7 +158,9 @@ def impl_collection(texts, allow, strict, via='strings', keys=None, page_size=2)
             except Exception as e:  # noqa: BLE001
                 err = impl.err_name(e)
         ws = impl.lib_warnings(w)
-        out['run'] = {'ro': TJ.to_tree(mc.ro.xml), 'warns': ws, 'err': err}
+        from mosromgr import exc as _exc
+        out['run'] = {'ro': TJ.to_tree(mc.ro.xml), 'warns': ws, 'err': err,
+                      'nonstrict_by_category': sum(1 for x in w if issubclass(x.category, _exc.MosMergeNonStrictWarning))}
         out['text'] = str(mc)
     finally:
         if tmp:
@@ -323,7 +343,9 @@ def run_c09(tier, seed):
             hf = hand_fold(docs, strict)      # docs of a history are already in ascending ID order
             ok = (o['text'] == hf['text'] and o['run']['err'] == hf['err'] and o['run']['warns'] == hf['warns'])
             if not strict:
-                ok = ok and o['run']['warns'].count('MosMergeNonStrictWarning') == hf['failures']
+                # one MosMergeNonStrictWarning per failing message - counted by name and by category (a caller filters
+                # with issubclass: no other warning of the library may pass for one)
+                ok = ok and o['run']['warns'].count('MosMergeNonStrictWarning') == hf['failures'] == o['run'].get('nonstrict_by_category', hf['failures'])
             oc.count('failing-steps:%d' % min(hf['failures'], 5))
             if not ok:
                 oc.failing.append(dict(rec, spec='collection merge == hand fold over freshly read messages',
@@ -363,6 +385,30 @@ def fault_collections_check(oc, tier):
                                    'spec': 'after a non-strict collection merge the running order is what adding the non-failing messages one by one gives: '
                                            'a message that failed left nothing behind', 'impl': _brief(o), 'hand_fold': {'err': hf['err'], 'text': hf['text'][:1500]}})
             oc.nontrivial.add(stable_hash(['fc', docs]))
+    # messages that only WARN (a duplicate or unknown element among good ones, not first): they are no failures - a strict
+    # merge applies them completely, exactly like a non-strict one and like adding them by hand
+    N = lambda i: B.story(i, [B.item(i + '-1')])
+    ro_w = B.ro_doc([N('A'), N('B'), N('C')], message_id='1')
+    warners = [('story insert [new, duplicate, new]', B.story_insert('B', [N('N1'), N('A'), N('N2')], message_id='5')),
+               ('EA story insert [new, duplicate, new]', B.ea('INSERT', {'storyID': 'C'}, [[N('N3'), N('B'), N('N4')]], message_id='6')),
+               ('story delete [known, unknown, known]', B.story_delete(['A', 'nowhere', 'C'], message_id='7')),
+               ('item delete [known, unknown]', B.item_delete('B', ['B-1', 'nowhere'], message_id='8')),
+               ('EA story delete over blocks', B.ea('DELETE', B.ABSENT, [B.ids('storyID', ['nowhere']), B.ids('storyID', ['N1'])], message_id='9')),
+               ('story send to an unknown story', B.story_send('nowhere', [B.p('x')], message_id='10'))]
+    for k in range(len(warners)):
+        docs = [TJ.to_text(ro_w)] + [TJ.to_text(m) for _, m in warners[:k + 1]] + [TJ.to_text(B.ro_delete(message_id='99'))]
+        hf = hand_fold(docs, True)
+        for strict in (True, False):
+            for via in ('strings', 'files'):
+                o = impl_collection(docs, False, strict, via=via)
+                oc.evaluations += 1
+                oc.in_domain += 1
+                oc.count('warn-only-collections')
+                if o['err'] is not None or o['run'] is None or o['run']['err'] is not None or o['text'] != hf['text'] or o['run']['warns'] != hf['warns']:
+                    oc.failing.append({'kind': 'collection', 'docs': docs, 'allow_incomplete': False, 'strict': strict, 'via': via,
+                                       'label': f'warn-only messages up to "{warners[k][0]}" strict={strict} via {via}',
+                                       'spec': 'a message that only warns is applied completely, strictly or not: the collection gives what adding the messages by hand gives, and raises nothing',
+                                       'impl': _brief(o), 'hand_fold': {'err': hf['err'], 'warns': hf['warns'], 'text': hf['text'][:1500]}})
 
 
 def _brief(o):
@@ -417,7 +463,7 @@ def run_c10(tier, seed):
             if via == 's3':
                 # key names unrelated to the ID order
                 keys = [f'prefix/{chr(97 + (i * 7) % 26)}{i}.mos.xml' for i in perm]
-            o = impl_collection(pdocs, True, False, via=via, keys=keys)
+            o = impl_collection(pdocs, True, False, via=via, keys=keys, listing='supplied' if (via == 's3' and pi % 4 < 2) else 'sorted')
             oc.evaluations += 1
             oc.in_domain += 1
             oc.count(f'via:{via}')
@@ -900,7 +946,8 @@ def run_c11(tier, seed):
         if k % 9 or not c['docs']:
             continue
         for prefix, keypfx in ((None, ''), ('', ''), ('pfx/', 'pfx/'), ('pfx/sub', 'pfx/sub-')):
-            objs = {f'{keypfx}{j:03d}.mos.xml': doc_bytes(t) for j, t in enumerate(c['docs'])}
+            # (key names with further dots in them - dates, times, revisions - are ordinary names ending in the suffix)
+            objs = {f'{keypfx}{j:03d}{["", ".rev1.2", "-2021-03-04T17.00.00", ".v2"][(k // 9 + j) % 4]}.mos.xml': doc_bytes(t) for j, t in enumerate(c['docs'])}
             install_fake_s3(FakeS3(objs, page_size=2))
             impl.apply_cfg(impl.cfg_for(''.join(c['docs']) + repr(prefix)))
             try:
